@@ -751,7 +751,10 @@ func genC15(o *vcoq.Out, r *vcoq.Rand, tier string) error {
 			}
 			// corrupted / unexpected first tokens: every 3rd collection in quick, all in thorough
 			if thorough && !big || n%3 == 0 || n >= 49 && n <= 51 || n == 1001 {
-				for _, bt := range g.badKeyTokens(keys) {
+				for i, bt := range g.badKeyTokens(keys) {
+					if big && i%5 != n%5 {
+						continue // a thousand keys per case: a fifth of the stream is enough
+					}
 					g.chain(rp, in, g.tokenStreamSize(n), bt[1], bt[0])
 				}
 				// a token naming a key that is deleted afterwards
@@ -782,7 +785,10 @@ func genC15(o *vcoq.Out, r *vcoq.Rand, tier string) error {
 			g.chain(wrp, in, size, "", "empty")
 		}
 		if thorough && !big || n%3 == 0 || n >= 49 && n <= 51 || n == 1001 {
-			for _, bt := range g.badWasteTokens(n) {
+			for i, bt := range g.badWasteTokens(n) {
+				if big && i%3 != n%3 {
+					continue
+				}
 				g.chain(wrp, in, g.tokenStreamSize(n), bt[1], bt[0])
 			}
 		}
